@@ -280,6 +280,13 @@ def corpus():
                                           ("get", b"\x52"), ("delete", k), ("get", k), ("exists", k), ("delete", b"\x52"), ("root",)]},
         {"ks": 2, "default": b"d", "ops": [("get", b"\x00\x01"), ("set", b"\x00\x01", b""), ("get", b"\x00\x01"), ("exists", b"\x00\x01"),
                                            ("fromdb", b"\x80\x00"), ("delete", b"\x00\x01"), ("set", b"\x00", b"x"), ("root",)]},
+        # two keys holding the SAME value share one leaf entry in the database; overwriting / deleting one must leave the other
+        {"ks": 1, "default": b"", "ops": [("set", b"\x03", b"v"), ("set", b"\x05", b"v"), ("set", b"\x03", b"w"), ("get", b"\x05"),
+                                          ("exists", b"\x05"), ("branch", b"\x05"), ("set", b"\x07", b"v"), ("delete", b"\x07"),
+                                          ("get", b"\x05"), ("calcroot", b"\x05"), ("reopen",), ("get", b"\x05"), ("root",)]},
+        {"ks": 2, "default": b"d", "ops": [("set", b"\x00\x03", b"v" * 40), ("set", b"\x80\x05", b"v" * 40), ("delete", b"\x00\x03"),
+                                           ("get", b"\x80\x05"), ("set", b"\x00\x03", b"d"), ("set", b"\x00\x03", b"x"), ("get", b"\x11\x11"),
+                                           ("exists", b"\x80\x05"), ("root",)]},
     ]
 
 
